@@ -13,12 +13,12 @@
 
     The reader model is tied to the C code by the differential run of
     bin/check C01 (engine fmt). *)
-From Coq Require Import NArith List Bool Lia.
+From Coq Require Import NArith ZArith List Bool Lia.
 From KdV Require Import Fmt.Codec Fmt.CodecProofs Fmt.Rle Fmt.RleProofs
      Fmt.PfnModel Fmt.BitmapSpec Fmt.ImageSpec Fmt.DiskdumpModel Fmt.DiskdumpSpec Fmt.DiskdumpProofs
      Fmt.S390Model Fmt.S390Spec Fmt.S390Proofs Fmt.LkcdModel Fmt.LkcdSpec Fmt.LkcdProofs Fmt.PfnBridge Fmt.LkcdIndexModel Fmt.LkcdIndexProofs Fmt.ElfGeomModel Fmt.ElfGeomSpec Fmt.ElfGeomProofs Fmt.ElfGeomRoundtrip Fmt.ReadProofs
      Fmt.ElfModel Fmt.ElfSpec Fmt.ElfProofs Fmt.ElfRoundtrip Fmt.ElfOpenProofs
-     Fmt.SadumpModel Fmt.SadumpSpec Fmt.SadumpProofs Fmt.SadumpOpenProofs.
+     Fmt.SadumpModel Fmt.SadumpSpec Fmt.SadumpProofs Fmt.SadumpOpenProofs Fmt.SadumpBridge.
 Import ListNotations.
 Local Open Scope N_scope.
 
@@ -333,25 +333,40 @@ Theorem C01_sadump_media_roundtrip : forall l img,
 Proof. exact sadump_media_roundtrip. Qed.
 Print Assumptions C01_sadump_media_roundtrip.
 
-(** A disk set of any number of disks: disk 1 carries the disk set header
-    (volume ids of all members, checked by [init_disk_set] / [process_vol_id])
-    and the dump headers, every later disk a partition header and page data;
-    each file's extent goes to the slot of its disk number, and the page data
-    of the set is the concatenation of the extents in disk order.
-    [_partial]: the files are given in disk order.  That the extent table does
-    not depend on the order in which the files are passed is C11's theorem
-    (Flat/DiskSetProofs.v, [locate_any_order]); shuffled sets are exercised
-    by the tie. *)
-Theorem C01_sadump_set_roundtrip_partial : forall l img,
-  sd_wf_set l img ->
-  exists st, sd_open (read_files (encode_sadump l img)) (length (sl_vol_ids l)) = Ok st /\
+(** A disk set of any number of disks, **the files passed in any order**
+    ([ord]: position i holds disk [nth i ord] + 1; [permuted_files]): disk 1
+    carries the disk set header (volume ids of all members) and the dump
+    headers, every other disk a partition header and page data.  Whatever the
+    order, [open_common] accepts the set - a disk probed before disk 1 leaves
+    its volume id for [init_disk_set] to compare with the table, a disk probed
+    after it is compared with the table entry ([process_vol_id]); the first
+    file probed is the reference for block size and ids - each file's extent
+    goes to the slot of its disk number with the file's own index, and the
+    page data of the set is the concatenation of the extents in disk order:
+    geometry and every page. *)
+Theorem C01_sadump_set_roundtrip : forall l img ord,
+  sd_wf_set l img -> Permutation.Permutation ord (seq 0 (length (sl_vol_ids l))) ->
+  exists st, sd_open (read_files (permuted_files l img ord)) (length (sl_vol_ids l)) = Ok st /\
     sd_ptr_size st = (if existsb (fun b => b) (sl_lma l) then 8 else 4) /\
     sd_max_pfn st = sl_max_mapnr l /\ sd_block_size st = sl_block_size l /\
     forall z pfn,
-      sd_read_page (read_files (encode_sadump l img)) st z pfn =
+      sd_read_page (read_files (permuted_files l img ord)) st z pfn =
       spec_read_page img SADUMP_PAGE_SIZE (sl_max_mapnr l) z pfn.
 Proof. exact sadump_set_roundtrip. Qed.
-Print Assumptions C01_sadump_set_roundtrip_partial.
+Print Assumptions C01_sadump_set_roundtrip.
+
+(** the extent walk of the C01 reader model is the walk of C11's disk-set
+    model (Flat/DiskSetModel.v; [off_t] in Z with overflow outcomes) wherever
+    offsets stay below 2^62 *)
+Theorem C01_sadump_extent_walk_is_c11 : forall exts pos,
+  exts <> [] -> Forall (fun e => small (ex_pos e) /\ small (ex_len e)) exts -> small pos ->
+  DiskSetModel.walk (map to_flat exts) (Z.of_N pos) =
+  match ext_loop exts pos with
+  | Some (f, o) => DiskSetModel.WAt f (Z.of_N o)
+  | None => DiskSetModel.WNoData
+  end.
+Proof. exact ext_loop_is_walk. Qed.
+Print Assumptions C01_sadump_extent_walk_is_c11.
 
 Theorem C01_sadump_disk_set_extents : forall rd (chunks : list (extent * bytes)) pos,
   Forall (fun ec => ex_len (fst ec) = len (snd ec) /\ (len (snd ec)) mod 4096 = 0 /\
@@ -822,6 +837,17 @@ Proof.
     assert (E : map len (encode_sadump ex_sd_set ex_sd_img) = [7680; 4352]) by (vm_compute; reflexivity).
     rewrite E in Hf. destruct Hf as [<- | [<- | []]]; reflexivity.
 Qed.
+
+(** the two-disk example with disk 2's file passed first *)
+Example C01_nonvacuous_sadump_set_order :
+  Permutation.Permutation [1; 0]%nat (seq 0 (length (sl_vol_ids ex_sd_set))) /\
+  (let rd := read_files (permuted_files ex_sd_set ex_sd_img [1; 0]%nat) in
+   match sd_open rd 2 with
+   | Ok st => sd_read_page rd st false 1 = Ok (ex_page 4) /\ sd_read_page rd st false 3 = Ok (ex_page 5) /\
+              sd_read_page rd st false 2 = Err ERR_NODATA
+   | Err _ => False
+   end).
+Proof. split; [apply Permutation.perm_swap |]. vm_compute. repeat split; reflexivity. Qed.
 
 Example C01_nonvacuous_rle :
   uncompress_rle (rle_encode [1; 0; 0; 0; 7; 7; 7; 7; 7; 2]) 10 = Some [1; 0; 0; 0; 7; 7; 7; 7; 7; 2]
